@@ -212,6 +212,9 @@ def cache_key(stream, seed, tier, extra):
     k.update(file_hash(HBIN).encode())
     k.update(file_hash(DRIVER).encode())
     k.update(repr((stream, seed, tier, extra, os.environ.get("VERIF_HIST_N", ""))).encode())
+    for x in (extra or []):
+        if isinstance(x, str) and os.path.isfile(x):
+            k.update(file_hash(x).encode())
     return k.hexdigest()[:24]
 
 
@@ -292,3 +295,11 @@ def known_findings():
     if not os.path.exists(p):
         return {"open": [], "fixed": []}
     return json.load(open(p))
+
+
+def witness_kind(path):
+    for l in open(path):
+        l = l.strip()
+        if l and not l.startswith("#"):
+            return ("pool", "pool") if l.startswith("geo ") else ("hist", "hist")
+    return ("hist", "hist")
